@@ -4,7 +4,7 @@
 # copy of /verif (so that the shared build directory and /repo itself are not disturbed).
 set -u
 PROP=$1; TREE=$2; TIER=${3:-quick}
-COPY=/tmp/verif_seeded
+COPY=${VERIF_COPY:-/tmp/verif_seeded}
 mkdir -p $COPY
 rsync -a --delete --exclude .git --exclude evidence --exclude replays /verif/ $COPY/
 cd $COPY && VERIF_REPO=$TREE ./check $PROP --tier $TIER
